@@ -1029,6 +1029,7 @@ Handshake::event_write() {
     case READ_MESSAGE:
     case READ_BITFIELD:
     case READ_EXT:
+    case READ_PORT:
       write_bitfield();
       return;
 
